@@ -428,7 +428,7 @@ pub fn property() -> Property {
             Sub::Custom(CustomSub { name: "enumerate", run: enumerate, replay: replay_enum }),
             Sub::Custom(CustomSub { name: "enumerate-large", run: enumerate_large, replay: replay_enum_large }),
             Sub::Custom(CustomSub { name: "slice-rhs", run: slice_rhs, replay: replay_slice_rhs }),
-            Sub::Bytes(BytesSub { name: "random", f: random, max_len: 40, quick: Budget { threads: 8, cases: 10_000 }, thorough: Budget { threads: 16, cases: 500_000 }, keep_unreproducible: false }),
+            Sub::Bytes(BytesSub { name: "random", f: random, max_len: 40, quick: Budget { threads: 8, cases: 20000 }, thorough: Budget { threads: 16, cases: 500_000 }, keep_unreproducible: false }),
             Sub::Bytes(BytesSub { name: "subjects", f: subjects, max_len: 300, quick: Budget { threads: 8, cases: 6_000 }, thorough: Budget { threads: 16, cases: 200_000 }, keep_unreproducible: false }),
         ],
     }
